@@ -42,7 +42,7 @@ def lines_of(program, ext=".c"):
 
 
 # ------------------------------------------------------------------ the real code
-def impl_attr(program, configs, ext=".c", workdir=None):
+def impl_attr(program, configs, ext=".c", workdir=None, render=None):
     """Per configuration: set of attributed line numbers, or ('EXC', msg).  One finder.find call
     with one platform per configuration; on an exception, falls back to one call per configuration."""
     from codebasin import CodeBase, finder
@@ -50,7 +50,7 @@ def impl_attr(program, configs, ext=".c", workdir=None):
     d = workdir or env.fresh_dir("c01")
     path = os.path.join(d, "t" + ext)
     with open(path, "w") as f:
-        f.write("\n".join(lines_of(program, ext)) + "\n")
+        f.write("\n".join(render(program) if render else lines_of(program, ext)) + "\n")
 
     def go(cfgs):
         cfg = {n: [{"file": path, "defines": list(defs), "include_paths": [], "include_files": []}] for n, defs, _ in cfgs}
